@@ -9,21 +9,357 @@
 //   wide   16/32/64-bit native integers, boundary-biased operands, cross-type conversions and comparisons
 //   float  float / double / long double (volatile run-time operands; denormals, zeros, infinities, NaN, ...)
 //   gmp    mpz_class / mpq_class, random and boundary operands
+//
+// This file holds main() and the non-template cores (oracle, enumerators); the part TUs numkernel__*.cc only
+// instantiate small thunks that perform one PPL call on a given number kind.
 #include "numkernel_units.hh"
 
 namespace nk {
+
+const char* intern(const std::string& s) { static std::set<std::string> pool; return pool.insert(s).first->c_str(); }
+
+std::string result_name(Result r) {
+  std::string s; unsigned u = (unsigned) r; Result_Class c = result_class(r); Result_Relation rel = result_relation(r);
+  static const char* const RB[8] = { "V_EMPTY", "V_EQ", "V_LT", "V_LE", "V_GT", "V_GE", "V_NE", "V_LGE" };   // bit order: EQ=1, LT=2, GT=4
+  if (c == VC_NAN) {
+    switch (r - V_UNREPRESENTABLE) { case V_NAN: s = "V_NAN"; break; case V_CVT_STR_UNK: s = "V_CVT_STR_UNK"; break; case V_DIV_ZERO: s = "V_DIV_ZERO"; break; case V_INF_ADD_INF: s = "V_INF_ADD_INF"; break;
+      case V_INF_DIV_INF: s = "V_INF_DIV_INF"; break; case V_INF_MOD: s = "V_INF_MOD"; break; case V_INF_MUL_ZERO: s = "V_INF_MUL_ZERO"; break; case V_INF_SUB_INF: s = "V_INF_SUB_INF"; break;
+      case V_MOD_ZERO: s = "V_MOD_ZERO"; break; case V_SQRT_NEG: s = "V_SQRT_NEG"; break; case V_UNKNOWN_NEG_OVERFLOW: s = "V_UNKNOWN_NEG_OVERFLOW"; break; case V_UNKNOWN_POS_OVERFLOW: s = "V_UNKNOWN_POS_OVERFLOW"; break;
+      default: { char b[32]; snprintf(b, sizeof b, "NAN?0x%x", u); s = b; } }
+  }
+  else {
+    s = RB[(unsigned) rel & 7];
+    if (c == VC_MINUS_INFINITY) s += "_MINUS_INFINITY"; else if (c == VC_PLUS_INFINITY) s += "_PLUS_INFINITY";
+    if (u & (unsigned) V_OVERFLOW) s += "|OVERFLOW";
+  }
+  if (u & (unsigned) V_UNREPRESENTABLE) s += "|UNREPRESENTABLE";
+  return s;
+}
+
+// non-trivial configuration = (operation, type, policy, direction, triage class of the operands / exact result, result code);
+// registered once per engine process, hashed by hx.
+static void reg_distinct(const Site& s, const char* dirn, const char* cls, Result r) {
+  static std::unordered_set<uint64_t> seen;
+  uint64_t h = hx::fnv(s.op); h = hx::splitmix(h ^ hx::fnv(s.type)); h = hx::splitmix(h ^ (uint64_t) (uintptr_t) s.pol); h = hx::splitmix(h ^ (uint64_t) (uintptr_t) dirn); h = hx::splitmix(h ^ (uint64_t) (uintptr_t) cls); h = hx::splitmix(h ^ (uint64_t) r);
+  if (seen.insert(h).second) hx::distinct(std::string(s.op) + "|" + s.type + "|" + s.pol + "|" + dirn + "|" + cls + "|" + result_name(r));
+}
+
+bool survives(const std::function<void()>& f, std::string& why) {
+  int pfd[2]; if (pipe(pfd) != 0) return true;
+  fflush(0);
+  pid_t pid = fork();
+  if (pid < 0) { close(pfd[0]); close(pfd[1]); return true; }
+  if (pid == 0) { close(pfd[0]); dup2(pfd[1], 2); close(pfd[1]); f(); _exit(0); }
+  close(pfd[1]); std::string err; char buf[512]; ssize_t n;
+  while ((n = read(pfd[0], buf, sizeof buf)) > 0) if (err.size() < 8192) err.append(buf, (size_t) n);
+  close(pfd[0]); int st = 0; waitpid(pid, &st, 0);
+  hx::count("fork_probes");
+  if (WIFEXITED(st) && WEXITSTATUS(st) == 0) return true;
+  size_t p = err.find("runtime error:"); if (p == std::string::npos) p = err.find("ERROR: AddressSanitizer"); if (p == std::string::npos) p = 0;
+  size_t b = err.rfind('\n', p); b = (b == std::string::npos) ? 0 : b + 1; size_t e = err.find('\n', p); why = err.substr(b, (e == std::string::npos ? err.size() : e) - b);
+  if (why.size() > 300) why.resize(300);
+  if (WIFSIGNALED(st)) why += " [signal " + std::to_string(WTERMSIG(st)) + "]";
+  return false;
+}
+
+std::string res_class(const KindInfo& K, const Ex& ex, bool special_operand) {
+  if (ex.u != U_NONE) return UNDEF_NAME[ex.u];
+  const Lim& L = K.lim;
+  if (ex.v.inf()) return "inf-result";
+  if (L.bounded && xcmp(ex.v, L.lo) < 0) return "neg-overflow";
+  if (L.bounded && xcmp(ex.v, L.hi) > 0) return "pos-overflow";
+  if (ex.has_prod && L.bounded && ex.prod.fin() && xcmp(ex.prod, L.lo) < 0) return "product-neg-overflow";
+  if (ex.has_prod && L.bounded && ex.prod.fin() && xcmp(ex.prod, L.hi) > 0) return "product-pos-overflow";
+  if (special_operand) return "inf-operand";
+  return K.representable(ex.v) ? "exact" : "inexact";
+}
+
+// ---------------------------------------------------------------- the oracle
+bool verify_core(const KindInfo& K, const Site& s, Rounding_Dir dir, const char* cls, Result r, const XQ& st, const Ex& ex, const Desc& desc) {
+  hx::checked();
+  const Lim& L = K.lim;
+  Result_Class rc = result_class(r); Result_Relation rel = result_relation(r);
+  bool unrep = !result_representable(r);
+  const char* dn = dir_name(dir);
+  static unsigned long& c_nan = hx::st().counters["ok.nan"]; static unsigned long& c_unk = hx::st().counters["ok.unknown_overflow"]; static unsigned long& c_unrep = hx::st().counters["ok.unrepresentable"];
+  static unsigned long& c_ovf = hx::st().counters["ok.overflow"]; static unsigned long& c_exact = hx::st().counters["ok.exact"]; static unsigned long& c_inexact = hx::st().counters["ok.inexact"];
+#define NK_FAIL(MON, WHAT) do { hx::violation(std::string("C11.") + MON + "." + s.op + "." + s.type + ":" + cls, \
+    std::string(WHAT) + ": " + s.op + "<" + s.type + "/" + s.pol + ">(" + desc() + ", ROUND_" + dn + ") returned " + result_name(r) + " stored=" + (unrep ? "(unrepresentable)" : show(st)) + " exact=" + (ex.u ? UNDEF_NAME[ex.u] : show(ex.v)) \
+    + (ex.has_prod ? " product=" + show(ex.prod) : "") + (L.bounded ? " range=[" + L.lo.get_str() + "," + L.hi.get_str() + "]" : "")); return false; } while (0)
+  reg_distinct(s, dn, cls, r);
+  // --- undefined input
+  if (ex.u != U_NONE) {
+    if (rc != VC_NAN) NK_FAIL("nan", "undefined-not-nan");
+    if (r == V_UNKNOWN_NEG_OVERFLOW || r == V_UNKNOWN_POS_OVERFLOW) NK_FAIL("nan", "undefined-reported-as-overflow");
+    if (!unrep && K.has_nan && !st.nan()) NK_FAIL("nan", "nan-result-but-stored-not-nan");
+    ++c_nan;
+    return true;
+  }
+  // --- defined input
+  if (rc == VC_NAN) {
+    if (r == V_UNKNOWN_NEG_OVERFLOW || r == V_UNKNOWN_POS_OVERFLOW) {
+      if (!ex.has_prod || !L.bounded) NK_FAIL("ovf", "unknown-overflow-without-intermediate");
+      bool neg = xcmp(ex.prod, L.lo) < 0, pos = xcmp(ex.prod, L.hi) > 0;
+      if ((r == V_UNKNOWN_NEG_OVERFLOW && !neg) || (r == V_UNKNOWN_POS_OVERFLOW && !pos)) NK_FAIL("ovf", "unknown-overflow-claim-false");
+      ++c_unk;
+      return true;
+    }
+    NK_FAIL("nan", "nan-on-defined");
+  }
+  int true_rel;   // relation  exact REL stored  as a Result_Relation bit
+  if (unrep) {
+    // nothing stored: the class must be an infinity and say on which side the exact result left the range
+    if (rc == VC_MINUS_INFINITY) { int c = ex.v.k == XQ::MINF ? 0 : 1; true_rel = c == 0 ? VR_EQ : VR_GT; if (!(rel & true_rel)) NK_FAIL("rel", "relation-false"); if (c != 0 && !(L.bounded && xcmp(ex.v, L.lo) < 0)) NK_FAIL("ovf", "overflow-claimed-in-range"); }
+    else if (rc == VC_PLUS_INFINITY) { int c = ex.v.k == XQ::PINF ? 0 : -1; true_rel = c == 0 ? VR_EQ : VR_LT; if (!(rel & true_rel)) NK_FAIL("rel", "relation-false"); if (c != 0 && !(L.bounded && xcmp(ex.v, L.hi) > 0)) NK_FAIL("ovf", "overflow-claimed-in-range"); }
+    else NK_FAIL("rel", "unrepresentable-normal-result");
+    ++c_unrep;
+    return true;
+  }
+  if (st.nan()) NK_FAIL("nan", "stored-nan-on-defined");
+  if (rc == VC_MINUS_INFINITY && st.k != XQ::MINF) NK_FAIL("rel", "class-minus-infinity-but-stored-differs");
+  if (rc == VC_PLUS_INFINITY && st.k != XQ::PINF) NK_FAIL("rel", "class-plus-infinity-but-stored-differs");
+  int c = xcmp(ex.v, st);
+  true_rel = c < 0 ? VR_LT : c > 0 ? VR_GT : VR_EQ;
+  if (round_up(dir) && c > 0) NK_FAIL("dir", "round-up-below-exact");       // the more specific diagnosis first
+  if (round_down(dir) && c < 0) NK_FAIL("dir", "round-down-above-exact");
+  if (!(rel & true_rel)) NK_FAIL("rel", "relation-false");
+  // overflow codes and infinities produced from finite exact results
+  bool ovf_code = ((unsigned) r & (unsigned) V_OVERFLOW) != 0;
+  if (ovf_code || (st.inf() && ex.v.fin())) {
+    if (!L.bounded) NK_FAIL("ovf", "overflow-in-unbounded-type");
+    bool below = xcmp(ex.v, L.lo) < 0, above = xcmp(ex.v, L.hi) > 0;
+    bool claims_neg = (rel == VR_LT && ovf_code) || st.k == XQ::MINF;   // V_LT_INF: exact < min ; stored -inf
+    bool claims_pos = (rel == VR_GT && ovf_code) || st.k == XQ::PINF;
+    if (ovf_code && rel == VR_LT && !(st.fin() && st.q == L.lo)) NK_FAIL("ovf", "lt-inf-but-stored-not-min");
+    if (ovf_code && rel == VR_GT && !(st.fin() && st.q == L.hi)) NK_FAIL("ovf", "gt-sup-but-stored-not-max");
+    if (claims_neg && !below) NK_FAIL("ovf", above ? "overflow-wrong-side" : "overflow-claimed-in-range");
+    if (claims_pos && !above) NK_FAIL("ovf", below ? "overflow-wrong-side" : "overflow-claimed-in-range");
+    ++c_ovf;
+  }
+  // strict relation requested: the library must commit to one of = < >
+  if (round_strict_relation(dir) && (round_up(dir) || round_down(dir)) && (!K.is_flt || K.c_fpu_inexact))
+    if (rel != VR_EQ && rel != VR_LT && rel != VR_GT) NK_FAIL("rel", "strict-not-exact");
+  // a stored finite value must lie inside the finite range of the destination
+  if (L.bounded && st.fin() && (st.q < L.lo || st.q > L.hi)) NK_FAIL("ovf", "stored-outside-finite-range");
+  ++(c == 0 ? c_exact : c_inexact);
+  return true;
+#undef NK_FAIL
+}
+
+// ---------------------------------------------------------------- inputs that were seen to trigger undefined behaviour inside PPL
+// They are first executed in a forked child so that the engine survives, keys the sanitizer report precisely
+// (C11.ub.<op>.<type>:<class>) and goes on with the enumeration.  Predicates are on the decoded operands.
+static bool risky_bin(const KindInfo&, const char*, const XQ&, const XQ&) { return false; }
+static bool risky_un(const KindInfo&, const char*, const XQ&) { return false; }
+static bool risky_e2(const KindInfo&, const char*, const XQ&, unsigned) { return false; }
+
+static bool probe_report(const Site& s, const char* cls, const std::string& operands, const std::string& why) {
+  hx::checked();
+  hx::violation(std::string("C11.ub.") + s.op + "." + s.type + ":" + cls, std::string("sanitizer report / crash inside ") + s.op + "<" + s.type + "/" + s.pol + ">(" + operands + "): " + why);
+  return false;
+}
+static void count_skipped(unsigned long n) { if (n) hx::count("skipped.outside_policy_contract", n); }
+
+// ---------------------------------------------------------------- enumerators
+void run_binary_core(const KindInfo& K, const char* op, BinRun run, Ex (*exact)(const XQ&, const XQ&), const void* xs, const void* ys, bool try_not_needed) {
+  Site s = { op, K.tname, K.pol };
+  const bool is_divlike = strcmp(op, "div") == 0 || strcmp(op, "idiv") == 0 || strcmp(op, "rem") == 0;
+  size_t nx = K.size(xs), ny = K.size(ys);
+  std::vector<XQ> dy; dy.reserve(ny); for (size_t j = 0; j < ny; ++j) dy.push_back(K.dec_at(ys, j));
+  unsigned long skipped = 0, done = 0;
+  for (size_t i = 0; i < nx; ++i) {
+    const XQ ax = K.dec_at(xs, i);
+    for (size_t j = 0; j < ny; ++j) {
+      const XQ& ay = dy[j];
+      Ex ex = exact(ax, ay);
+      if (!K.in_contract(ex.u)) { ++skipped; continue; }
+      std::string cl = res_class(K, ex, ax.inf() || ay.inf());
+      if (is_divlike && ex.u == U_NONE && ay.fin() && ax.fin() && (cl == "exact" || cl == "inexact"))
+        cl = std::string(::sgn(ay.q) < 0 ? "negative-divisor-" : "positive-divisor-") + (::sgn(ex_rem(ax, ay).v.q) == 0 ? "exact" : "inexact");
+      const char* cls = intern(cl);
+      Desc desc = desc2(ax, ay);
+      if (risky_bin(K, op, ax, ay)) {
+        std::string why;
+        if (!survives([&]() { XQ st; for (int d = 0; d < NDIRS; ++d) run(xs, i, ys, j, DIRS[d].d, st); }, why)) { probe_report(s, cls, desc(), why); continue; }
+      }
+      int nd = NDIRS + ((try_not_needed && ex.u == U_NONE && K.representable(ex.v)) ? 1 : 0);
+      for (int d = 0; d < nd; ++d) {
+        if (g_verbose()) fprintf(stderr, "op: %s<%s/%s>(%s, ROUND_%s)\n", s.op, s.type.c_str(), s.pol, desc().c_str(), DIRS[d].name);
+        XQ st; Result r = run(xs, i, ys, j, DIRS[d].d, st);
+        verify_core(K, s, DIRS[d].d, cls, r, st, ex, desc);
+        ++done;
+      }
+    }
+  }
+  count_skipped(skipped); hx::count(std::string("op.") + op, done);
+}
+
+void run_unary_core(const KindInfo& K, const char* op, UnRun run, Ex (*exact)(const XQ&), const void* xs, bool try_not_needed) {
+  Site s = { op, K.tname, K.pol };
+  const bool is_sqrt = strcmp(op, "sqrt") == 0;
+  size_t nx = K.size(xs); unsigned long skipped = 0, done = 0;
+  for (size_t i = 0; i < nx; ++i) {
+    const XQ ax = K.dec_at(xs, i);
+    Ex ex = exact(ax);
+    if (!K.in_contract(ex.u)) { ++skipped; continue; }
+    std::string cl = res_class(K, ex, ax.inf());
+    if (is_sqrt && ex.u == U_NONE && ax.fin()) {
+      if (K.is_int && ax.q * 4 > K.lim.hi + 1) cl = "radicand-top-quarter-" + cl;
+      else if (K.is_mpq && ax.q < 1 && ::sgn(ax.q) > 0) cl = "radicand-below-one-" + cl;
+    }
+    const char* cls = intern(cl);
+    Desc desc = desc1(ax);
+    if (risky_un(K, op, ax)) {
+      std::string why;
+      if (!survives([&]() { XQ st; for (int d = 0; d < NDIRS; ++d) run(xs, i, DIRS[d].d, st); }, why)) { probe_report(s, cls, desc(), why); continue; }
+    }
+    int nd = NDIRS + ((try_not_needed && ex.u == U_NONE && K.representable(ex.v)) ? 1 : 0);
+    for (int d = 0; d < nd; ++d) {
+      if (g_verbose()) fprintf(stderr, "op: %s<%s/%s>(%s, ROUND_%s)\n", s.op, s.type.c_str(), s.pol, desc().c_str(), DIRS[d].name);
+      XQ st; Result r = run(xs, i, DIRS[d].d, st);
+      verify_core(K, s, DIRS[d].d, cls, r, st, ex, desc);
+      ++done;
+    }
+  }
+  count_skipped(skipped); hx::count(std::string("op.") + op, done);
+}
+
+static std::string exp_class(const KindInfo& K, unsigned e) {
+  int b = K.is_int ? K.bits : 64;
+  if (e == 0) return "exp0"; if ((int) e < b - 1 && e < 0x7fffffffU) return "exp-small";
+  if (K.is_int) { if ((int) e == b - 1) return "exp=bits-1"; if ((int) e == b) return "exp=bits"; return "exp>bits"; }
+  return "exp-large";
+}
+void run_2exp_core(const KindInfo& K, const char* op, E2Run run, Ex (*exact)(const XQ&, unsigned), const void* xs, const std::vector<unsigned>& exps) {
+  Site s = { op, K.tname, K.pol };
+  size_t nx = K.size(xs); unsigned long skipped = 0, done = 0;
+  for (size_t i = 0; i < nx; ++i) {
+    const XQ ax = K.dec_at(xs, i);
+    for (size_t j = 0; j < exps.size(); ++j) {
+      unsigned e = exps[j];
+      if (!K.is_int && e > 100000) continue;    // GMP kinds: 2^e must fit in memory
+      if (K.is_flt && e >= 64) continue;         // floats: exp < 64 is an entry PPL_ASSERT of the *_2exp functions (precondition)
+      Ex ex = exact(ax, e);
+      if (!K.in_contract(ex.u)) { ++skipped; continue; }
+      const char* cls = intern(exp_class(K, e) + "," + (ax.fin() ? (::sgn(ax.q) < 0 ? "neg" : ::sgn(ax.q) > 0 ? "pos" : "zero") : "special") + "," + res_class(K, ex, ax.inf()));
+      Desc desc = desce(ax, e);
+      if (risky_e2(K, op, ax, e)) {
+        std::string why;
+        if (!survives([&]() { XQ st; for (int d = 0; d < NDIRS; ++d) run(xs, i, e, DIRS[d].d, st); }, why)) { probe_report(s, cls, desc(), why); continue; }
+      }
+      for (int d = 0; d < NDIRS; ++d) {
+        if (g_verbose()) fprintf(stderr, "op: %s<%s/%s>(%s, ROUND_%s)\n", s.op, s.type.c_str(), s.pol, desc().c_str(), DIRS[d].name);
+        XQ st; Result r = run(xs, i, e, DIRS[d].d, st);
+        verify_core(K, s, DIRS[d].d, cls, r, st, ex, desc);
+        ++done;
+      }
+    }
+  }
+  count_skipped(skipped); hx::count(std::string("op.") + op, done);
+}
+
+void run_fused_core(const KindInfo& K, const char* op, bool sub, FuRun run, const void* accs, const void* xs, const void* ys) {
+  Site s = { op, K.tname, K.pol };
+  size_t nx = K.size(xs), ny = K.size(ys), na = K.size(accs);
+  std::vector<XQ> dy; for (size_t j = 0; j < ny; ++j) dy.push_back(K.dec_at(ys, j));
+  std::vector<XQ> da; for (size_t j = 0; j < na; ++j) da.push_back(K.dec_at(accs, j));
+  unsigned long skipped = 0, done = 0;
+  for (size_t i = 0; i < nx; ++i) {
+    const XQ ax = K.dec_at(xs, i);
+    for (size_t j = 0; j < ny; ++j) for (size_t k = 0; k < na; ++k) {
+      const XQ& ay = dy[j]; const XQ& at = da[k];
+      Ex ex = ex_fused(at, ax, ay, sub);
+      if (!K.in_contract(ex.u)) { ++skipped; continue; }
+      const char* cls = intern(res_class(K, ex, ax.inf() || ay.inf() || at.inf()));
+      Desc desc = desc3(at, ax, ay);
+      for (int d = 0; d < NDIRS; ++d) {
+        if (g_verbose()) fprintf(stderr, "op: %s<%s/%s>(%s, ROUND_%s)\n", s.op, s.type.c_str(), s.pol, desc().c_str(), DIRS[d].name);
+        XQ st; Result r = run(accs, k, xs, i, ys, j, DIRS[d].d, st);
+        verify_core(K, s, DIRS[d].d, cls, r, st, ex, desc);
+        ++done;
+      }
+    }
+  }
+  count_skipped(skipped); hx::count(std::string("op.") + op, done);
+}
+
+void run_convert_core(const KindInfo& To, const KindInfo& From, BinRun assign, BinRun construct, const void* xs) {
+  std::string ty = std::string(To.tname) + "<-" + From.tname;
+  const char* polc = intern(std::string(To.pol) + "<-" + From.pol);
+  Site s = { "assign", ty, polc }; Site sc = { "construct", ty, polc };
+  size_t nx = From.size(xs); unsigned long done = 0;
+  for (size_t i = 0; i < nx; ++i) {
+    const XQ ax = From.dec_at(xs, i);
+    Ex ex = ex_id(ax);
+    std::string cl = res_class(To, ex, false);
+    if (ex.u == U_NONE && ax.fin() && cl == "inexact" && To.is_int) cl = ::sgn(ax.q) < 0 ? "negative-fractional" : "positive-fractional";
+    const char* cls = intern(cl);
+    Desc desc = desc1(ax);
+    int nd = NDIRS + ((ex.u == U_NONE && To.representable(ex.v)) ? 1 : 0);
+    for (int d = 0; d < nd; ++d) {
+      { if (g_verbose()) fprintf(stderr, "op: assign<%s/%s>(%s, ROUND_%s)\n", ty.c_str(), polc, desc().c_str(), DIRS[d].name);
+        XQ st; Result r = assign(xs, i, 0, 0, DIRS[d].d, st);
+        verify_core(To, s, DIRS[d].d, cls, r, st, ex, desc); ++done; }
+      if (construct) {
+        if (g_verbose()) fprintf(stderr, "op: construct<%s/%s>(%s, ROUND_%s)\n", ty.c_str(), polc, desc().c_str(), DIRS[d].name);
+        XQ st; Result r = construct(xs, i, 0, 0, DIRS[d].d, st);
+        verify_core(To, sc, DIRS[d].d, cls, r, st, ex, desc); ++done; }
+    }
+  }
+  hx::count("op.assign", done);
+}
+
+void run_specials_core(const KindInfo& K, SpRun run) {
+  Site s = { "assign_special", K.tname, K.pol };
+  for (int d = 0; d < NDIRS; ++d) for (int w = 0; w < 3; ++w) {
+    Ex ex = w == 0 ? Ex(xinf(1)) : w == 1 ? Ex(xinf(-1)) : Ex(U_NAN_OPERAND);
+    const char* cls = w == 0 ? "plus-infinity" : w == 1 ? "minus-infinity" : "not-a-number";
+    XQ st; Result r = run(w, DIRS[d].d, st);
+    Desc desc = desct(cls);
+    if (verify_core(K, s, DIRS[d].d, cls, r, st, ex, desc) && w == 2 && K.has_nan && !result_representable(r)) {
+      hx::checked();
+      hx::violation(std::string("C11.nan.assign_special.") + K.tname + ":stored-nan-flagged-unrepresentable", std::string("assign_r(") + K.kname() + ", NOT_A_NUMBER) stored a NaN (policy has_nan) but returned " + result_name(r));
+    }
+  }
+  hx::count("op.assign_special", 3 * NDIRS);
+}
+
+void run_compare_core(const KindInfo& A, const KindInfo& B, CmpRun run, SgnRun sg, const void* xs, const void* ys) {
+  static const char* const NM[6] = { "equal", "not_equal", "less_than", "less_or_equal", "greater_than", "greater_or_equal" };
+  std::string ty = std::string(A.tname) + "," + B.tname, pol = std::string(A.pol) + "," + B.pol;
+  size_t nx = A.size(xs), ny = B.size(ys);
+  std::vector<XQ> dy; for (size_t j = 0; j < ny; ++j) dy.push_back(B.dec_at(ys, j));
+  unsigned long done = 0;
+  for (size_t i = 0; i < nx; ++i) {
+    const XQ ax = A.dec_at(xs, i);
+    for (size_t j = 0; j < ny; ++j) {
+      const XQ& ay = dy[j]; int c = xcmp(ax, ay);
+      if (g_verbose()) fprintf(stderr, "op: compare<%s/%s>(%s, %s)\n", ty.c_str(), pol.c_str(), show(ax).c_str(), show(ay).c_str());
+      CmpOut o = run(xs, i, ys, j, c != 2);
+      bool want[6] = { c == 0, c != 0, c == -1, c == -1 || c == 0, c == 1, c == 1 || c == 0 };
+      const char* cls = c == 2 ? "nan-operand" : (ax.inf() || ay.inf()) ? "inf-operand" : c == 0 ? "equal" : "different";
+      hx::checked(6); done += 6;
+      for (int k = 0; k < 6; ++k)
+        if (o.p[k] != want[k]) hx::violation(std::string("C11.rel.") + NM[k] + "." + ty + ":" + cls, std::string(NM[k]) + "<" + ty + "/" + pol + ">(" + show(ax) + ", " + show(ay) + ") returned " + (o.p[k] ? "true" : "false"));
+      if (c != 2) { hx::checked(); ++done;
+        if ((o.c > 0) - (o.c < 0) != c) hx::violation(std::string("C11.rel.cmp.") + ty + ":" + cls, "cmp<" + ty + "/" + pol + ">(" + show(ax) + ", " + show(ay) + ") returned " + std::to_string(o.c)); }
+    }
+    if (!ax.nan()) { hx::checked(); ++done; int g = sg(xs, i); int w = ax.sgn(); if (g != w) hx::violation(std::string("C11.rel.sgn.") + A.tname + ":" + (ax.inf() ? "inf-operand" : "finite"), "sgn<" + A.kname() + ">(" + show(ax) + ") returned " + std::to_string(g)); }
+  }
+  hx::count("op.compare", done);
+  static std::unordered_set<uint64_t> seen; uint64_t h = hx::fnv(ty + pol); if (seen.insert(h).second) hx::distinct("compare|" + ty + "|" + pol);
+}
+
 static Units& i8_units(bool thorough) {
-  static Units q, t; static bool init = false;
-  if (!init) { init = true; 
+  static Units q, t, all; static bool init = false;
+  if (!init) { init = true;
 #define NK_CALL(P) i8_register_##P(q, t);
     NK_I8_PARTS(NK_CALL)
 #undef NK_CALL
-   }
-  static Units all; static bool init2 = false;
-  if (!init2) { init2 = true; all = q; all.insert(all.end(), t.begin(), t.end()); }
+    all = q; all.insert(all.end(), t.begin(), t.end()); }
   return thorough ? all : q;
 }
-}
+} // namespace nk
 
 static void run_case(uint64_t) {
   const std::string& profile = hx::opt().profile;
@@ -33,7 +369,7 @@ static void run_case(uint64_t) {
       nk::Units& U = nk::i8_units(hx::opt().thorough);
       long lim = hx::opt().geti("units", (long) U.size());
       size_t k = (size_t) (c % lim);
-      if (c == 0) { hx::count("i8.units_in_tier", (unsigned long) lim); }
+      if (c == 0) hx::count("i8.units_in_tier", (unsigned long) lim);
       hx::tr("unit " + std::to_string(k) + "/" + std::to_string(lim) + ": " + U[k].name);
       U[k].run();
       hx::count("i8.units_run");
